@@ -253,8 +253,9 @@ func minInt(a, b int) int {
 func numsAllOK(v jv.Val) bool {
 	switch v.K {
 	case jv.Num:
-		d, ok := jv.SigDigits(v.R)
-		return ok && d <= 34
+		// at most 34 significant digits and an exponent inside the
+		// decimal128 range (section 3.4: the package's number model)
+		return model.NumOK(v.R)
 	case jv.Arr:
 		for _, e := range v.A {
 			if !numsAllOK(e) {
